@@ -6,42 +6,35 @@
 From PG Require Import Lib.Strs Gen.Tables Gen.T_C20 Model.Names Model.Dedup Proofs.Names Proofs.Dedup.
 From Coq Require Import Permutation.
 
-(* ---------------------------------------------------------------- class names *)
-Theorem C20_full_class_name_ident : forall s, is_ident (class_name s) = true.
-Proof. exact class_name_ident. Qed.
-Print Assumptions C20_full_class_name_ident.
+(* ---------------------------------------------------------------- class names (F20a fixed) *)
+Theorem C20_full_class_name : forall s, valid_name (class_name s) = true.
+Proof. exact class_name_valid. Qed.
+Print Assumptions C20_full_class_name.
 
-Theorem C20_partial_class_name : forall s, guard_F20a s = true -> valid_name (class_name s) = true.
-Proof. exact class_name_valid_partial. Qed.
-Print Assumptions C20_partial_class_name.
+Example C20_fixed_F20a : valid_name (class_name w_none) = true /\ class_name w_none = [78;111;110;101;95].
+Proof. exact fixed_F20a. Qed.
+Print Assumptions C20_fixed_F20a.
 
-Theorem C20_refuted_F20a : guard_F20a w_none = false /\ valid_name (class_name w_none) = false.
-Proof. exact refuted_F20a. Qed.
-Print Assumptions C20_refuted_F20a.
+(* ---------------------------------------------------------------- method / field / parameter names (F20b fixed) *)
+Theorem C20_full_method_name : forall s, valid_name (method_name s) = true.
+Proof. exact method_name_valid. Qed.
+Print Assumptions C20_full_method_name.
 
-(* ---------------------------------------------------------------- method / field / parameter names *)
-Theorem C20_partial_method_name : forall s, has_alnum s = true -> valid_name (method_name s) = true.
-Proof. exact method_name_valid_partial. Qed.
-Print Assumptions C20_partial_method_name.
+Example C20_fixed_F20b : method_name w_dollar = s_unnamed /\ valid_name (method_name w_dollar) = true.
+Proof. exact fixed_F20b. Qed.
+Print Assumptions C20_fixed_F20b.
 
-Theorem C20_full_method_name_empty_or_valid : forall s, method_name s = [] \/ valid_name (method_name s) = true.
-Proof. exact method_name_empty_or_valid. Qed.
-Print Assumptions C20_full_method_name_empty_or_valid.
-
-Theorem C20_refuted_F20b : has_alnum w_dollar = false /\ valid_name (method_name w_dollar) = false.
-Proof. exact refuted_F20b. Qed.
-Print Assumptions C20_refuted_F20b.
-
-(* ---------------------------------------------------------------- module names *)
-Theorem C20_partial_module_name : forall u_word u_lower u_isdigit u_ign u_cased s, has_alnum s = true ->
+(* ---------------------------------------------------------------- module names (F20c fixed; F20h open) *)
+Theorem C20_partial_module_name : forall u_word u_lower u_ign u_cased u_isdigit s,
+  has_alnum s || no_foreign_word u_word s = true ->
   valid_name (module_name u_word u_lower u_isdigit u_ign u_cased s) = true.
 Proof. exact module_name_valid_partial. Qed.
 Print Assumptions C20_partial_module_name.
 
-Theorem C20_refuted_F20c : forall u_word u_lower u_isdigit u_ign u_cased,
-  has_alnum w_dollar = false /\ module_name u_word u_lower u_isdigit u_ign u_cased w_dollar = [].
-Proof. exact refuted_F20c. Qed.
-Print Assumptions C20_refuted_F20c.
+Example C20_fixed_F20c : forall u_word u_lower u_isdigit u_ign u_cased,
+  module_name u_word u_lower u_isdigit u_ign u_cased w_dollar = s_unnamed /\ valid_name s_unnamed = true.
+Proof. exact fixed_F20c. Qed.
+Print Assumptions C20_fixed_F20c.
 
 (* ---------------------------------------------------------------- enum member names: total and valid, no guard *)
 Theorem C20_full_enum_member_str : forall u_upper v,
@@ -56,9 +49,9 @@ Print Assumptions C20_full_enum_member_int.
 
 (* ---------------------------------------------------------------- tag sanitisers and the identifier test: witnesses *)
 Theorem C20_partial_tag_attr_name : forall u_word u_lower u_ign u_cased s,
-  no_foreign_word u_word s = true -> has_alnum s = true -> first_alnum_not_digit s = true ->
-  is_ident (tag_attr_name u_word u_lower u_ign u_cased s) = true.
-Proof. exact tag_attr_name_ident_partial. Qed.
+  no_foreign_word u_word s = true -> first_alnum_not_digit s = true ->
+  valid_name (tag_attr_name u_word u_lower u_ign u_cased s) = true.
+Proof. exact tag_attr_name_valid_partial. Qed.
 Print Assumptions C20_partial_tag_attr_name.
 
 Theorem C20_partial_tag_class_name : forall u_word u_lower u_ign u_cased u_title s,
@@ -67,29 +60,36 @@ Theorem C20_partial_tag_class_name : forall u_word u_lower u_ign u_cased u_title
 Proof. exact tag_class_name_valid_partial. Qed.
 Print Assumptions C20_partial_tag_class_name.
 
+Example C20_fixed_F20g : forall u_word u_lower u_ign u_cased,
+  tag_attr_name u_word u_lower u_ign u_cased w_class = w_class ++ [95]
+  /\ valid_name (tag_attr_name u_word u_lower u_ign u_cased w_class) = true
+  /\ tag_attr_name u_word u_lower u_ign u_cased w_dollar = s_unnamed.
+Proof. exact fixed_F20g. Qed.
+Print Assumptions C20_fixed_F20g.
+
 Theorem C20_refuted_F20d : forall u_word u_lower u_title u_ign u_cased,
   first_alnum_not_digit w_1st = false
   /\ is_ident (tag_attr_name u_word u_lower u_ign u_cased w_1st) = false
-  /\ is_ident (tag_class_name u_word u_lower u_title u_ign u_cased w_1st) = false
-  /\ tag_attr_name u_word u_lower u_ign u_cased w_dollar = [].
+  /\ is_ident (tag_class_name u_word u_lower u_title u_ign u_cased w_1st) = false.
 Proof. exact refuted_F20d. Qed.
 Print Assumptions C20_refuted_F20d.
 
-Theorem C20_refuted_F20g : forall u_word u_lower u_ign u_cased,
-  is_kw (tag_attr_name u_word u_lower u_ign u_cased w_class) = true.
-Proof. exact refuted_F20g. Qed.
-Print Assumptions C20_refuted_F20g.
-
 Theorem C20_refuted_F20h :
-  let u_word := fun c => c =? 178 in let id1 := fun c : N => [c] in let no := fun _ : N => false in
-  no_foreign_word u_word w_x2 = false /\ tag_attr_name u_word id1 no no w_x2 = w_x2 /\ is_ident w_x2 = false.
+  let u_word := fun c => (c =? 178) || (c =? 189) in let id1 := fun c : N => [c] in let no := fun _ : N => false in
+  no_foreign_word u_word w_x2 = false /\ tag_attr_name u_word id1 no no w_x2 = w_x2 /\ is_ident w_x2 = false
+  /\ has_alnum w_half = false /\ no_foreign_word u_word w_half = false
+  /\ module_name u_word id1 no no no w_half = w_half /\ is_ident w_half = false.
 Proof. exact refuted_F20h. Qed.
 Print Assumptions C20_refuted_F20h.
 
-Theorem C20_refuted_F20i :
-  no_trailing_lf w_a_nl = false /\ is_valid_python_identifier w_a_nl = true /\ is_ident w_a_nl = false.
-Proof. exact refuted_F20i. Qed.
-Print Assumptions C20_refuted_F20i.
+(* ---------------------------------------------------------------- the identifier test (F20i fixed) *)
+Theorem C20_full_is_valid_python_identifier : forall s, is_valid_python_identifier s = valid_name s.
+Proof. exact is_valid_python_identifier_spec. Qed.
+Print Assumptions C20_full_is_valid_python_identifier.
+
+Example C20_fixed_F20i : is_valid_python_identifier w_a_nl = false.
+Proof. exact fixed_F20i. Qed.
+Print Assumptions C20_fixed_F20i.
 
 (* ---------------------------------------------------------------- namespaces: dataclass fields *)
 Theorem C20_full_dedup_fields_nodup : forall props,
@@ -99,11 +99,10 @@ Theorem C20_full_dedup_fields_nodup : forall props,
 Proof. exact dedup_fields_nodup. Qed.
 Print Assumptions C20_full_dedup_fields_nodup.
 
-Theorem C20_partial_dedup_fields_valid : forall props,
-  forallb (fun p => has_alnum (fst p)) props = true ->
+Theorem C20_full_dedup_fields_valid : forall props,
   Forall (fun n => valid_name n = true) (map snd (dedup_fields props)).
 Proof. exact dedup_fields_valid. Qed.
-Print Assumptions C20_partial_dedup_fields_valid.
+Print Assumptions C20_full_dedup_fields_valid.
 
 (* ---------------------------------------------------------------- namespaces: enum members *)
 Theorem C20_full_dedup_enum : forall u_upper vals,
@@ -151,11 +150,10 @@ Theorem C20_full_dedup_models_nodup : forall raw,
 Proof. exact dedup_models_nodup. Qed.
 Print Assumptions C20_full_dedup_models_nodup.
 
-Theorem C20_partial_dedup_models_valid : forall raw,
-  forallb guard_F20a (map class_name raw) = true ->
+Theorem C20_full_dedup_models_valid : forall raw,
   Forall (fun x => valid_name (fst (snd x)) = true /\ valid_name (snd (snd x)) = true) (dedup_models raw).
 Proof. exact dedup_models_valid. Qed.
-Print Assumptions C20_partial_dedup_models_valid.
+Print Assumptions C20_full_dedup_models_valid.
 
 (* ---------------------------------------------------------------- namespaces: operation ids *)
 Theorem C20_full_dedup_ops_prefix : forall ids,
@@ -204,7 +202,7 @@ Print Assumptions C20_refuted_F04d.
 
 (* ---------------------------------------------------------------- non-vacuity of the guards *)
 Theorem C20_guard_nonvacuous :
-  guard_F20a w_ok = true /\ has_alnum w_ok = true /\ first_alnum_not_digit w_ok = true
+  has_alnum w_ok = true /\ first_alnum_not_digit w_ok = true
   /\ class_name w_ok = [71;101;116;72;116;116;112;82;101;115;112;111;110;115;101;50]
   /\ method_name w_ok = [103;101;116;95;104;116;116;112;95;114;101;115;112;111;110;115;101;50]
   /\ module_name_tok w_ok = [103;101;116;95;104;116;116;112;95;114;101;115;112;111;110;115;101;95;50].
